@@ -935,7 +935,27 @@ class ResourceMon(Monitor):
         return [d for d in w.dev.values() if isinstance(d, PartProcessor) and d._resources_for_processing]
 
     def start(self, w):
+        # what the model configured: the pools of the spec, then every capacity change the model makes
+        self.cap = dict(w.spec.get('pools', {}))
         self.check(w)
+
+    def capacity_changes(self, w):
+        '''"capacity schedules that drop to zero and rise again": a change is refused iff it would take the pool below
+        zero, and the pool's capacity is what the model configured.'''
+        for t in w.hub.tlog:
+            if t[0] != 'addres':
+                continue
+            _, name, amt, ok = t
+            legal = amt == 0 or self.cap.get(name, 0) + amt >= 0
+            if ok != legal:
+                raise Violation('capacity_change', f'add_resources({name!r}, {amt}) with a capacity of {self.cap.get(name, 0)} '
+                                                   f'was {"accepted" if ok else "refused"}')
+            if ok and amt != 0:
+                self.cap[name] = self.cap.get(name, 0) + amt
+        rm = w.env.resource_manager
+        for name, c in self.cap.items():
+            if rm.get_resource_capacity(name) != c:
+                raise Violation('capacity', f'pool {name}: capacity {rm.get_resource_capacity(name)}, the model configured {c}')
 
     def check(self, w):
         rm = w.env.resource_manager
@@ -955,6 +975,7 @@ class ResourceMon(Monitor):
                 raise Violation('usage', f'pool {r}: usage {rm.get_resource_usage(r)} vs holdings of processors {want.get(r, 0)}')
 
     def after(self, w, label, ev):
+        self.capacity_changes(w)
         self.check(w)
         if label[0] == 'ev' and ev_action_name(ev) == '_fail' and not ev.cancelled:
             p = ev_owner(ev)
